@@ -719,6 +719,9 @@ class BGP(protocol.Protocol):
                     del value14['nlri']
                     key = "{"
                     for k in sorted(prefix.keys()):
+                        if k == 'label':
+                            # a withdrawal carries the withdraw label, not the announced one
+                            continue
                         key += '"' + k + '"'
                         key += ':'
                         key += '"' + str(prefix[k]) + '"'
@@ -772,6 +775,9 @@ class BGP(protocol.Protocol):
                 for prefix in attr[15]['withdraw']:
                     key = "{"
                     for k in sorted(prefix.keys()):
+                        if k == 'label':
+                            # a withdrawal carries the withdraw label, not the announced one
+                            continue
                         key += '"' + k + '"'
                         key += ':'
                         key += '"' + str(prefix[k]) + '"'
@@ -819,6 +825,9 @@ class BGP(protocol.Protocol):
                     del value14['nlri']
                     key = "{"
                     for k in sorted(prefix.keys()):
+                        if k == 'label':
+                            # a withdrawal carries the withdraw label, not the announced one
+                            continue
                         key += '"' + str(k) + '"'
                         key += ':'
                         key += '"' + str(prefix[k]) + '"'
@@ -859,6 +868,9 @@ class BGP(protocol.Protocol):
                 for prefix in attr[15]['withdraw']:
                     key = "{"
                     for k in sorted(prefix.keys()):
+                        if k == 'label':
+                            # a withdrawal carries the withdraw label, not the announced one
+                            continue
                         key += '"' + str(k) + '"'
                         key += ':'
                         key += '"' + str(prefix[k]) + '"'
